@@ -347,6 +347,9 @@ class ExprMixin(object):
     def eval_instance_const(self, st, base, attr, acc):
         """Class-level constant read through an instance: dispatch on typeof."""
         u = self.u
+        # (an instance may shadow a class attribute: declare it in a shape when users do that)
+        self.assumptions_used.add("A-classconst: %s.%s is read through an instance and taken to have its class-level value"
+                                  % (base.cls, attr))
         cls = base.cls
         subs = self.src.subclasses(cls) if cls in self.src.classes else [cls]
         allowed = self.dynamic_classes(base)
